@@ -237,6 +237,47 @@ func c03Build(c *vctx, rng *vrng, num int) (*c03Repo, error) {
 			return nil, err
 		}
 	}
+	// in half of the repositories: one index file per pack, so that deleting an index file can
+	// un-index data blobs while the trees stay indexed (only checkTree's lookup notices that)
+	if num%2 == 1 {
+		var old []restic.ID
+		_ = repo.List(ctx, restic.IndexFile, func(id restic.ID, _ int64) error { old = append(old, id); return nil })
+		per := map[restic.ID][]pack.Blob{}
+		var order []restic.ID
+		for _, id := range old {
+			buf, err := repo.LoadUnpacked(ctx, restic.IndexFile, id)
+			if err != nil {
+				return nil, err
+			}
+			idx, err := index.DecodeIndex(buf, id)
+			if err != nil {
+				return nil, err
+			}
+			for pb := range idx.Values() {
+				if _, ok := per[pb.Pack]; !ok {
+					order = append(order, pb.Pack)
+				}
+				per[pb.Pack] = append(per[pb.Pack], pb.Blob)
+			}
+		}
+		for _, p := range order {
+			idx := index.NewIndex()
+			idx.StorePack(p, per[p])
+			idx.Finalize()
+			var buf bytes.Buffer
+			if err := idx.Encode(&buf); err != nil {
+				return nil, err
+			}
+			if _, err := repository.VerifC03SaveUnpacked(ctx, repo, restic.IndexFile, buf.Bytes()); err != nil {
+				return nil, err
+			}
+		}
+		for _, id := range old {
+			if err := os.Remove(filepath.Join(e.repo, "index", id.String())); err != nil {
+				return nil, err
+			}
+		}
+	}
 	// abstract repository
 	sizes := map[restic.ID]int64{}
 	_ = repo.List(ctx, restic.PackFile, func(id restic.ID, sz int64) error { sizes[id] = sz; return nil })
@@ -622,7 +663,7 @@ func engineC03(c *vctx) error {
 	repository.VerifC03SetLockWait(time.Millisecond)
 	defer os.RemoveAll(filepath.Join("/dev/shm", fmt.Sprintf("verif-c03-%d", os.Getpid())))
 	nrepo := c.n(2, 10)
-	perRepo := c.n(40, 170)
+	perRepo := c.n(32, 170)
 	num := 0
 	for ri := 0; ri < nrepo; ri++ {
 		rng := c.rng.fork()
@@ -653,6 +694,13 @@ func engineC03(c *vctx) error {
 		var chosen [][]c03Site
 		for _, k := range keys {
 			l := byClass[k]
+			if k == "index/delete" || k == "pack/delete" {
+				// few sites, each with its own consequences: take them all
+				for _, i := range l {
+					chosen = append(chosen, []c03Site{sites[i]})
+				}
+				continue
+			}
 			chosen = append(chosen, []c03Site{sites[l[rng.intn(len(l))]]})
 		}
 		for len(chosen) < perRepo {
